@@ -1129,70 +1129,23 @@ func (e *Exec) predCall(sf *SpecFunc, sfPkg *types.Package, args0 []TV, env *Spe
 		norm[m] = r
 		return r
 	})
-	h := sha256.Sum256([]byte(sf.Pkg + "." + sf.Name + "|" + canon))
-	name := fmt.Sprintf("P_%s!%x", sf.Name, h[:6])
-	if !e.declared["pred:"+name] {
-		e.mark("pred:" + name)
-		var sorts, binders, formals []string
-		for k := range idxActuals {
-			sorts = append(sorts, "Int")
-			binders = append(binders, fmt.Sprintf("(i!p%d Int)", k))
-			formals = append(formals, fmt.Sprintf("i!p%d", k))
-		}
-		for k := range bvars {
-			sorts = append(sorts, "Int")
-			binders = append(binders, fmt.Sprintf("(b!p%d Int)", k))
-			formals = append(formals, fmt.Sprintf("b!p%d", k))
-		}
-		if last >= 0 {
-			sorts = append(sorts, "Int")
-			binders = append(binders, "("+vname+" Int)")
-			formals = append(formals, vname)
-		}
-		e.rawDecl("fun:"+name, fmt.Sprintf("(declare-fun %s (%s) Bool)", name, strings.Join(sorts, " ")))
-		if len(formals) == 0 {
-			e.globalAxiom(fmt.Sprintf("(assert (= %s %s))", name, canon))
-		} else {
-			app := "(" + name + " " + strings.Join(formals, " ") + ")"
-			pats := ":pattern (" + app + ")"
-			if last >= 0 && len(bvars) == 0 && len(idxActuals) == 0 {
-				// bottom-up: a membership fact of an inner view (same element) also produces this view's atom
-				seenP := map[string]bool{}
-				for _, m := range innerPredRe.FindAllString(canon, -1) {
-					if !seenP[m] && !strings.HasPrefix(m, "("+name+" ") {
-						seenP[m] = true
-						pats += " :pattern (" + m + ")"
-					}
-				}
-			}
-			e.globalAxiom(fmt.Sprintf("(assert (forall (%s) (! (= %s %s) %s)))", strings.Join(binders, " "), app, canon, pats))
-			if len(idxActuals) > 0 && os.Getenv("RVC_NOBRIDGE") == "" {
-				// term-creation bridges between the instances of one predicate over S[e] in different heap versions:
-				// a ground atom of one version creates the atom of the other, so both definitions unfold at that point
-				// (the bridge formula itself is an implication into a fresh predicate: conservative)
-				fam := fmt.Sprintf("%s.%s/%d", sf.Pkg, sf.Name, len(formals))
-				prev := e.predFamilies[fam]
-				if len(prev) > 5 {
-					prev = prev[len(prev)-5:]
-				}
-				mkBridge := func(from, to string) {
-					bn := "B_" + from
-					e.rawDecl("fun:"+bn, fmt.Sprintf("(declare-fun %s (%s) Bool)", bn, strings.Join(sorts, " ")))
-					fa := strings.Join(formals, " ")
-					e.predBridges = append(e.predBridges, predBridge{from, to, e.nDecls(),
-						fmt.Sprintf("(assert (forall (%s) (! (=> (%s %s) (%s %s)) :pattern ((%s %s)))))", strings.Join(binders, " "), from, fa, bn, fa, to, fa)})
-				}
-				for _, o := range prev {
-					mkBridge(o, name)
-					mkBridge(name, o)
-				}
-				if e.predFamilies == nil {
-					e.predFamilies = map[string][]string{}
-				}
-				e.predFamilies[fam] = append(e.predFamilies[fam], name)
-			}
-		}
+	var sorts, binders, formals []string
+	for k := range idxActuals {
+		sorts = append(sorts, "Int")
+		binders = append(binders, fmt.Sprintf("(i!p%d Int)", k))
+		formals = append(formals, fmt.Sprintf("i!p%d", k))
 	}
+	for k := range bvars {
+		sorts = append(sorts, "Int")
+		binders = append(binders, fmt.Sprintf("(b!p%d Int)", k))
+		formals = append(formals, fmt.Sprintf("b!p%d", k))
+	}
+	if last >= 0 {
+		sorts = append(sorts, "Int")
+		binders = append(binders, "("+vname+" Int)")
+		formals = append(formals, vname)
+	}
+	name := e.predInstance(sf, canon, sorts, binders, formals, last >= 0 && len(bvars) == 0 && len(idxActuals) == 0, len(idxActuals) > 0, 0)
 	var actuals []Term
 	actuals = append(actuals, idxActuals...)
 	for _, b := range bvars {
@@ -1205,6 +1158,129 @@ func (e *Exec) predCall(sf *SpecFunc, sfPkg *types.Package, args0 []TV, env *Spe
 		return TV{Term{name, SBool}, specBoolT}, true
 	}
 	return TV{mk(SBool, name, actuals...), specBoolT}, true
+}
+
+var mergedNameRe = regexp.MustCompile(`[A-Za-z_][A-Za-z0-9_.]*![0-9]+`)
+var predNameRe = regexp.MustCompile(`P_[A-Za-z0-9_]+![0-9a-f]{12}`)
+
+// predInstance declares (once) the named instance of a predicate with the given canonical body and returns its name.
+// Instances whose body mentions names introduced by a control-flow join get a bridge to the corresponding instance
+// of each branch:  pc_branch ==> forall params. P!merged(params) = P!branch(params)  (the merged heaps and variables
+// equal the branch's under pc_branch, so the two definitions coincide there).
+func (e *Exec) predInstance(sf *SpecFunc, canon string, sorts, binders, formals []string, bottomUp, famBridges bool, depth int) string {
+	h := sha256.Sum256([]byte(sf.Pkg + "." + sf.Name + "|" + canon))
+	name := fmt.Sprintf("P_%s!%x", sf.Name, h[:6])
+	if e.declared["pred:"+name] {
+		return name
+	}
+	e.mark("pred:" + name)
+	e.rawDecl("fun:"+name, fmt.Sprintf("(declare-fun %s (%s) Bool)", name, strings.Join(sorts, " ")))
+	if len(formals) == 0 {
+		e.globalAxiom(fmt.Sprintf("(assert (= %s %s))", name, canon))
+	} else {
+		app := "(" + name + " " + strings.Join(formals, " ") + ")"
+		pats := ":pattern (" + app + ")"
+		if bottomUp {
+			// bottom-up: a membership fact of an inner view (same element) also produces this view's atom
+			seenP := map[string]bool{}
+			for _, m := range innerPredRe.FindAllString(canon, -1) {
+				if !seenP[m] && !strings.HasPrefix(m, "("+name+" ") {
+					seenP[m] = true
+					pats += " :pattern (" + m + ")"
+				}
+			}
+		}
+		e.globalAxiom(fmt.Sprintf("(assert (forall (%s) (! (= %s %s) %s)))", strings.Join(binders, " "), app, canon, pats))
+		if famBridges && os.Getenv("RVC_NOBRIDGE") == "" {
+			// term-creation bridges between the instances of one predicate over S[e] in different heap versions:
+			// a ground atom of one version creates the atom of the other, so both definitions unfold at that point
+			// (the bridge formula itself is an implication into a fresh predicate: conservative)
+			fam := fmt.Sprintf("%s.%s/%d", sf.Pkg, sf.Name, len(formals))
+			prev := e.predFamilies[fam]
+			if len(prev) > 5 {
+				prev = prev[len(prev)-5:]
+			}
+			mkBridge := func(from, to string) {
+				bn := "B_" + from
+				e.rawDecl("fun:"+bn, fmt.Sprintf("(declare-fun %s (%s) Bool)", bn, strings.Join(sorts, " ")))
+				fa := strings.Join(formals, " ")
+				e.predBridges = append(e.predBridges, predBridge{from: from, to: to, ndecl: e.nDecls(),
+					text: fmt.Sprintf("(assert (forall (%s) (! (=> (%s %s) (%s %s)) :pattern ((%s %s)))))", strings.Join(binders, " "), from, fa, bn, fa, to, fa)})
+			}
+			for _, o := range prev {
+				mkBridge(o, name)
+				mkBridge(name, o)
+			}
+			if e.predFamilies == nil {
+				e.predFamilies = map[string][]string{}
+			}
+			e.predFamilies[fam] = append(e.predFamilies[fam], name)
+		}
+	}
+	// bridges across the most recent join whose names occur in the body
+	if depth < 3 && e.nJoinBridge < 400 && os.Getenv("RVC_NOJOIN") == "" && len(e.mergeMap) > 0 {
+		var alts []mergeAlt
+		for _, m := range mergedNameRe.FindAllString(canon, -1) {
+			if a, ok := e.mergeMap[m]; ok && (alts == nil || len(a) == len(alts)) {
+				if alts == nil {
+					alts = a
+				}
+			}
+		}
+		if alts == nil {
+			// inner instances that have branch counterparts
+			for _, m := range predNameRe.FindAllString(canon, -1) {
+				if br := e.predBranch[m]; br != nil {
+					for pc := range br {
+						alts = append(alts, mergeAlt{pc: pc})
+					}
+					sort.Slice(alts, func(i, j int) bool { return alts[i].pc < alts[j].pc })
+					break
+				}
+			}
+		}
+		for _, alt := range alts {
+			ck := mergedNameRe.ReplaceAllStringFunc(canon, func(m string) string {
+				if a, ok := e.mergeMap[m]; ok {
+					for _, x := range a {
+						if x.pc == alt.pc {
+							return x.term
+						}
+					}
+				}
+				return m
+			})
+			ck = predNameRe.ReplaceAllStringFunc(ck, func(m string) string {
+				if br := e.predBranch[m]; br != nil {
+					if t, ok := br[alt.pc]; ok {
+						return t
+					}
+				}
+				return m
+			})
+			if ck == canon {
+				continue
+			}
+			nk := e.predInstance(sf, ck, sorts, binders, formals, bottomUp, false, depth+1)
+			if e.predBranch == nil {
+				e.predBranch = map[string]map[string]string{}
+			}
+			if e.predBranch[name] == nil {
+				e.predBranch[name] = map[string]string{}
+			}
+			e.predBranch[name][alt.pc] = nk
+			var txt string
+			if len(formals) == 0 {
+				txt = fmt.Sprintf("(assert (=> %s (= %s %s)))", alt.pc, name, nk)
+			} else {
+				fa := strings.Join(formals, " ")
+				txt = fmt.Sprintf("(assert (=> %s (forall (%s) (! (= (%s %s) (%s %s)) :pattern ((%s %s))))))", alt.pc, strings.Join(binders, " "), name, fa, nk, fa, name, fa)
+			}
+			e.predBridges = append(e.predBridges, predBridge{from: name, to: nk, ndecl: e.nDecls(), text: txt, join: true})
+			e.nJoinBridge++
+		}
+	}
+	return name
 }
 
 // viewForalls returns the view-quantified conjuncts  forall v in LO..HI :: B  (LO, HI literals) of a clause.
